@@ -5,6 +5,7 @@
 use crate::core::*;
 use crate::rng::{mix, tag, Rng};
 use crate::worlds::authz::{gen_ent, gen_pol, gen_req, mk_entity, mk_request, observe, raw_id, uid, ActC, EntRec, Model as EvalModel, Pol, Req, ScopeC, Tri, ENTS};
+use cedar_policy::proto::traits::Protobuf;
 use cedar_policy::{Authorizer, Effect, Entities, Policy, PolicyId, PolicySet, SlotId, Template};
 use serde::{Deserialize, Serialize};
 use std::collections::{BTreeMap, BTreeSet, HashMap};
@@ -22,6 +23,8 @@ pub enum PsOp {
     RemoveStatic { id: u8 },
     RemoveTemplate { id: u8 },
     Merge { sub: Vec<PsOp>, rename: bool },
+    /// replace the set by its own JSON (0) or protobuf (1) round trip; the contents must be unchanged
+    RoundTrip { via: u8 },
 }
 
 #[derive(Clone, Debug, Serialize, Deserialize)]
@@ -317,7 +320,7 @@ fn apply(cx: &mut Ctx<'_>, ps: &mut PolicySet, m: &mut PModel, op: &PsOp, step: 
             m2.remove(&pid(*id));
             res = ps.remove_template(PolicyId::new(pid(*id))).map(|_| ()).map_err(|e| e.to_string());
         }
-        PsOp::Merge { .. } => return Ok(false),
+        PsOp::Merge { .. } | PsOp::RoundTrip { .. } => return Ok(false),
     }
     match (res.is_ok(), expect_ok) {
         (true, true) => {
@@ -366,6 +369,26 @@ fn run(case: &Case, obs: &mut Obs) -> Option<Violation> {
     for (step, op) in case.ops.iter().enumerate() {
         cx.obs.count("logical_steps");
         let before = m.clone();
+        if let PsOp::RoundTrip { via } = op {
+            let rt: Result<PolicySet, String> = if *via % 2 == 0 {
+                ps.clone().to_json().map_err(|e| e.to_string()).and_then(|j| PolicySet::from_json_value(j).map_err(|e| e.to_string()))
+            } else {
+                ps.encode().map_err(|e| e.to_string()).and_then(|b| PolicySet::decode(&b[..]).map_err(|e| e.to_string()))
+            };
+            cx.obs.count("roundtrips");
+            match rt {
+                Ok(p2) => {
+                    cx.obs.event(format!("{step} roundtrip{via} ok"));
+                    if let Some(mut v) = cx.check_set(&p2, &m, step, if *via % 2 == 0 { "after a JSON round trip" } else { "after a protobuf round trip" }) {
+                        v.kind = format!("roundtrip_{}", v.kind);
+                        return Some(v);
+                    }
+                    ps = p2;
+                }
+                Err(e) => return Some(Violation::new("roundtrip_failed", if *via % 2 == 0 { "to_json/from_json" } else { "encode/decode" }, step, "the set survives its own round trip", e)),
+            }
+            continue;
+        }
         let ok = if let PsOp::Merge { sub, rename } = op {
             // `other` is produced by its own short history
             let mut other = PolicySet::new();
@@ -510,7 +533,7 @@ fn gen_ops(rng: &mut Rng, n: usize, allow_merge: bool, idpool: usize) -> Vec<PsO
                 id = rng.below(idpool) as u8;
             }
         }
-        let w: &[u32] = if allow_merge { &[6, 4, 9, 3, 3, 3, 3] } else { &[6, 4, 6, 1, 1, 1, 0] };
+        let w: &[u32] = if allow_merge { &[6, 4, 9, 3, 3, 3, 3, 1] } else { &[6, 4, 6, 1, 1, 1, 0, 0] };
         match rng.weighted(w) {
             0 => {
                 if !used(id, &statics, &links, &templates) {
@@ -557,11 +580,12 @@ fn gen_ops(rng: &mut Rng, n: usize, allow_merge: bool, idpool: usize) -> Vec<PsO
                 let id = if !templates.is_empty() && rng.pct(70) { rng.pick(&templates).0 } else { id };
                 ops.push(PsOp::RemoveTemplate { id })
             }
-            _ => {
+            6 => {
                 let k = rng.range(1, 6);
                 let sub = gen_ops(rng, k, false, idpool);
                 ops.push(PsOp::Merge { sub, rename: rng.pct(60) });
             }
+            _ => ops.push(PsOp::RoundTrip { via: rng.below(2) as u8 }),
         }
     }
     ops
@@ -654,7 +678,7 @@ impl World for PolicySetWorld {
         out
     }
     fn rule(&self) -> &'static str {
-        "cases = seeded histories (4-25 ops) of add / add_template / link (exact, missing, extra, wrong-target bindings) / unlink / remove_static / remove_template / merge(other built by its own sub-history, with and without renaming) over a pool of 3-8 ids incl. the spellings merge's fresh-id search produces; about half of the generated ops are designed to fail; evaluations = set-level comparisons with the name/role model, probe authorizations compared with the model's table, and link-vs-substituted-static response comparisons; non-trivial = history with >=1 successful link, >=1 failed op and >=1 op that removed something; distinct by fingerprint of the sequence of model states"
+        "cases = seeded histories (4-25 ops) of add / add_template / link (exact, missing, extra, wrong-target bindings) / unlink / remove_static / remove_template / merge(other built by its own sub-history, with and without renaming) / JSON and protobuf round trips of the whole set over a pool of 3-8 ids incl. the spellings merge's fresh-id search produces; about half of the generated ops are designed to fail; evaluations = set-level comparisons with the name/role model, probe authorizations compared with the model's table, and link-vs-substituted-static response comparisons; non-trivial = history with >=1 successful link, >=1 failed op and >=1 op that removed something; distinct by fingerprint of the sequence of model states"
     }
     fn real_components(&self) -> Vec<&'static str> {
         vec!["cedar_policy::PolicySet::{add, add_template, link, unlink, remove_static, remove_template, merge, policies, templates, policy, template, get_linked_policies, num_of_*, is_empty}", "Policy::{template_id, template_links, is_static, effect, annotations}", "Authorizer::is_authorized on the edited set", "Policy::parse / Template::parse"]
